@@ -3,7 +3,7 @@
    trajectories that wrap around).  Property theorems only (exact + Print Assumptions). *)
 From CV Require Import Base.Tac Base.Cmp Base.Ext Base.LinAlg Base.QcLin Model.C08_NUTS Model.C08_Kernel.
 From CV Require Import Proofs.C08_Prog Proofs.C08_Tree Proofs.C08_Top Proofs.C08_Law Proofs.C08_Orbit Proofs.C08_Block Proofs.C08_Alive
-                       Proofs.C08_Sim Proofs.C08_LeapD Proofs.C08_Cycle Proofs.C08_SliceTop Proofs.C08_Closed.
+                       Proofs.C08_Sim Proofs.C08_LeapD Proofs.C08_Cycle Proofs.C08_SliceTop Proofs.C08_Closed Proofs.C08_KernelLaw.
 From Coq Require Import QArith Qcanon.
 Local Open Scope Z_scope.
 
@@ -188,6 +188,30 @@ Proof.
   exact (concrete_closed_orbit_stationary t (length x) guard heps (qvec x) (qvec z) u N Hw Hx (eq_trans (eq_sym Hl) Hx) Npos Hclose Hmin Hf md a k0 Hk).
 Qed.
 Print Assumptions C08_concrete_closed_orbit_checked.
+
+(* ---- what the kernel-law cells compare with the real samplers is the orbit kernel ------------------------------ *)
+(* kernel_prob (Model/C08_Kernel.v) is the quantity that check_kernel equates, rational for rational, with the enumerated
+   law of the new point of both real samplers.  It is the sum, over the orbit positions i within reach whose point is pt, of
+   the entry P(0 -> i) of the orbit kernel of C08_orbit_stationary_alldepth (the orbit labelled through the orbit map of the
+   start): the kernel whose double stochasticity is proved is the kernel the implementations are compared with. *)
+Theorem C08_kernel_law_is_orbit_kernel :
+  forall (t : target) (d : nat) (guard : bool) (max_depth : nat) (heps : Qc) (x z : list Q) (e : Q) (pt : list Q),
+  wf_target t d -> length x = d -> length z = d ->
+  let s0 := c_init t (qvec x) (qvec z) in
+  let logu := ext_sub (c_ham t s0) (Fin e) in
+  let phi := orb cstate (c_leap t heps) s0 in
+  (kernel_prob t guard max_depth heps x z e pt
+   == qs (fun i => if ql_eqb (map this (ps_x (phi i))) pt
+                   then dist (otransition (Hz cstate (c_ham t) phi) (Lz cstate (c_lgd t) phi) (Uz cstate c_uturn_ok phi)
+                                          (Az cstate (fun _ => 0%Q) phi) logu guard max_depth 0)
+                             (fun tp => if (p_cur tp =? i) then 1 else 0)
+                   else 0)
+         (zr (0 - pw (Datatypes.S max_depth)) (2 * 2 ^ Datatypes.S max_depth + 1)))%Q.
+Proof.
+  intros t d guard md heps x z e pt Hw Hx Hz s0 logu phi.
+  exact (kernel_prob_orbit t d guard md heps x z e pt Hw Hx Hz).
+Qed.
+Print Assumptions C08_kernel_law_is_orbit_kernel.
 
 (* ---- non-vacuity ------------------------------------------------------------------------------------------------ *)
 (* N(0, 1/2) with step size 1 (heps = 1/2), started at x = 1 with momentum 1/2: the leapfrog map has order 4, the orbit is
